@@ -606,6 +606,12 @@ def oracle(case, res):
                     stats["one_decorated_function_overlapping_calls"] = 1
     if res.get("merged_groups"):
         stats["commit_with_several_ttl_groups"] = 1
+    for who, inside in res.get("abandons", []):
+        stats["abandoned_block_on_the_shared_object_finalised"] = 1
+        if inside:
+            stats["abandoned_block_finalised_while_another_task_is_inside_the_shared_object"] = 1
+            if any(outs[t].startswith("ret:") for t in inside):
+                stats["task_inside_the_shared_object_during_an_abandoned_exit_returned"] = 1
     return bad, stats
 
 
@@ -953,6 +959,21 @@ def exhaustive_families():
                      f"raises a non-Exception BaseException",
                      {0: 1}, [tx(mode, [["nin", "dec"], ["nin", "obj"], ["nin", "obj"], ["incr", 0, 1], ["raise", "base"], ["nout"], ["nout"], ["nout"]], "obj", 40),
                               tx(mode, [["incr", 0, 2]], "dec", 40)], mode != "locked"))
+    for mode in ("fast", "locked", "serializable"):
+        # an ABANDONED block on the shared context object (an async generator with `async with T:` around a yield that was dropped) is
+        # finalised from another context at every moment another task is suspended inside ITS block on T: that task's live transaction
+        # is not touched - it keeps its locks, and its body, finishing normally, commits exactly its own writes
+        fams.append((f"{mode}: a task inside `async with T:` (set, incr, set) while a plain task finalises an abandoned block on T and reads",
+                     {0: 1}, [tx(mode, [["set", 1, 5], ["incr", 0, 1], ["set", 2, 6]], "obj", 40),
+                              plain([["gc", "obj", mode, 40], ["get", 1]])], True))
+        fams.append((f"{mode}: two tasks inside the shared object (one raising) while a decorated call finalises an abandoned block on it "
+                     f"in the middle of its own transaction",
+                     {0: 1}, [tx(mode, [["incr", 0, 1], ["set", 1, 5]], "obj", 40), tx(mode, [["set", 2, 6], ["raise"]], "obj", 40),
+                              tx(mode, [["incr", 0, 2], ["gc", "obj", mode, 40], ["set", 3, 1]], "dec", 40)], mode == "fast"))
+        fams.append((f"{mode}: a task that re-enters the shared object nested finalises an abandoned block on it itself, against a task "
+                     f"inside the object",
+                     {0: 1}, [tx(mode, [["set", 1, 5], ["nin", "obj"], ["gc", "obj", mode, 40], ["incr", 0, 1], ["nout"]], "obj", 40),
+                              tx(mode, [["incr", 0, 2], ["set", 2, 6]], "obj", 40)], mode != "locked"))
     fams.append(("locked: a body raising a BaseException that is not an Exception while holding two locks, against a waiting call",
                  {0: 1}, [tx("locked", [["incr", 0, 1], ["set", 1, 2], ["raise", "base"]], "ctx", 40), tx("locked", [["incr", 0, 2]], "dec", 40)], True))
     fams.append(("locked: opposite lock order with a short timeout (deadlock broken by LockedError)",
@@ -1048,6 +1069,13 @@ def gen_case(rng, ntasks_max: int, style: int):
             ops = gen_ops(rng, True, 6, form)
         programs.append(tx(mode, ops, form, to))
     init = {k: rng.randint(0, 5) for k in range(NKEYS) if rng.random() < (0.4 if style != 1 else 0.6)}
+    if rng.random() < 0.3:
+        # an abandoned block on a shared context object is finalised somewhere, at some moment, by some task
+        users = [(p["mode"], p["timeout"]) for p in programs if p["kind"] == "tx" and
+                 (p.get("form") == "obj" or any(op[0] == "nin" and op[1] == "obj" for op in p["ops"]))]
+        m, t = rng.choice(users) if users else (mode0, to0)
+        p = rng.choice(programs)
+        p["ops"].insert(rng.randint(0, len(p["ops"])), ["gc", "obj", m, t])
     cancels = rng.choice([0, 0, 0, 1, 1, 2])
     schedule = [rng.randint(0, 3 if not cancels else 6) if rng.random() < 0.8 else 0 for _ in range(rng.randint(5, 80))]
     return {"init": init, "programs": programs, "schedule": schedule, "cancels": cancels}
@@ -1187,6 +1215,8 @@ def run(chk: Check) -> int:
                 "the transaction) left by an exception that the enclosing body caught, a body that returned and committed after that, "
                 "a multi-key write (set_many / delete_many) inside a transaction - as the first write of a locking transaction, and a serializable "
                 "transaction committing it with another task released between the commit's backend commands -, "
+                "an abandoned block on the shared context object finalised from another context - while another task is suspended inside its own "
+                "block on that object, and that task then returning -, "
                 "two tasks inside ONE shared context object at once (one failing, the other committing; the object re-entered by its own task), "
                 "an explicit tx.commit() / tx.rollback() in the "
                 "middle of a body, a lock given back by it and taken again later in the same block, a block ended by an exception after an explicit "
